@@ -1,6 +1,7 @@
 SPECIFICATION SimSpec
 CONSTANTS
   WorkerCpus <- S3_Workers
+  LateWorkers <- S3_Late
   WorkerGroup <- S3_Groups
   WorkerLife <- S3_Life
   MaxTicks = 0
